@@ -80,3 +80,61 @@ func Disarm() int64 { budget = 1<<62 - 1; return ticks }
 
 // Ticks returns the steps counted since the last Arm.
 func Ticks() int64 { return ticks }
+
+// Sequential mode. The deviation explorers run one library call at a time on one goroutine; nothing
+// else runs instrumented code. A lock that is found held can then never be released: acquiring it
+// would block for ever. Instead of blocking, the attempt is recorded (SeqBlocked) and the call is
+// unwound with a panic; locks acquired and not released when the call returns are known (SeqHeld)
+// and can be released by force so that the following executions start clean.
+
+type BlockedForever struct{ What string }
+
+func (b BlockedForever) Error() string { return "verif: " + b.What }
+
+var (
+	sequential bool
+	seqBlocked string
+	seqHeld    = map[any]func(){}
+	seqSites   = map[any]string{}
+)
+
+func SetSequential(on bool) { sequential = on; seqBlocked = "" }
+func Sequential() bool     { return sequential }
+
+// SeqClear forgets a recorded blocking attempt (before the next execution).
+func SeqClear() { seqBlocked = "" }
+
+// SeqBlocked returns the blocking attempt recorded since the last SeqClear ("" if none).
+func SeqBlocked() string { return seqBlocked }
+
+// SeqBlock records that the caller would block for ever and unwinds it.
+func SeqBlock(what string) {
+	if seqBlocked == "" {
+		seqBlocked = what + " in " + callChain(3)
+	}
+	panic(BlockedForever{what})
+}
+
+func SeqAcquire(key any, release func()) {
+	seqHeld[key] = release
+	seqSites[key] = callChain(3)
+}
+func SeqRelease(key any) { delete(seqHeld, key); delete(seqSites, key) }
+
+// SeqHeld lists where the locks that are still held were acquired.
+func SeqHeld() []string {
+	var out []string
+	for _, s := range seqSites {
+		out = append(out, s)
+	}
+	return out
+}
+
+// SeqForceRelease releases every lock still held.
+func SeqForceRelease() {
+	for k, f := range seqHeld {
+		f()
+		delete(seqHeld, k)
+		delete(seqSites, k)
+	}
+}
